@@ -200,6 +200,8 @@ class Normalizer:
         self.log = {}               # outer function qualname -> sorted list of callee names
         self._overrides = {}
         self._elig = {}
+        self._tables = {}
+        self._cur_module = None
 
     # ------------------------------------------------------------------ resolution
     def _eligible(self, f):
@@ -921,6 +923,31 @@ class Normalizer:
         return changed[0]
 
     # ------------------------------------------------------------------ N8
+    def _module_table(self, name):
+        m = self._cur_module
+        if m is None:
+            return None
+        key = (m.rel, name)
+        if key not in self._tables:
+            d = None
+            defs = [st for st in m.tree.body if isinstance(st, ast.Assign) and any(isinstance(t, ast.Name) and t.id == name for t in st.targets)]
+            if len(defs) == 1 and len(defs[0].targets) == 1 and isinstance(defs[0].value, ast.Dict):
+                mutated = False
+                for n in ast.walk(m.tree):
+                    if isinstance(n, ast.Name) and n.id == name and isinstance(n.ctx, (ast.Store, ast.Del)) and n is not defs[0].targets[0]:
+                        mutated = True
+                    if isinstance(n, ast.Subscript) and isinstance(n.ctx, (ast.Store, ast.Del)) and isinstance(n.value, ast.Name) and n.value.id == name:
+                        mutated = True
+                    if isinstance(n, ast.Call) and isinstance(n.func, ast.Attribute) and isinstance(n.func.value, ast.Name) and n.func.value.id == name \
+                            and n.func.attr in ('update', 'pop', 'popitem', 'clear', 'setdefault', '__setitem__', '__delitem__'):
+                        mutated = True
+                    if isinstance(n, ast.Global) and name in n.names:
+                        mutated = True
+                if not mutated:
+                    d = defs[0].value
+            self._tables[key] = d
+        return self._tables[key]
+
     def table_lookups(self, fn):
         for n in ast.walk(fn):
             for c in ast.iter_child_nodes(n):
@@ -930,6 +957,11 @@ class Normalizer:
         def table_of(e):
             if isinstance(e, ast.Dict):
                 d = e
+            elif isinstance(e, ast.Name) and not any(isinstance(n, ast.Name) and n.id == e.id and isinstance(n.ctx, (ast.Store, ast.Del)) for n in ast.walk(fn)) \
+                    and e.id not in {a.arg for a in ast.walk(fn) if isinstance(a, ast.arg)}:
+                d = self._module_table(e.id)         # a module-level constant table that nothing in the module mutates
+                if d is None:
+                    return None
             elif isinstance(e, ast.Name):
                 stores = [n for n in ast.walk(fn) if isinstance(n, ast.Name) and n.id == e.id and isinstance(n.ctx, (ast.Store, ast.Del))]
                 if len(stores) != 1:
@@ -1122,13 +1154,17 @@ class Normalizer:
     # ------------------------------------------------------------------ entry
     def normalize(self, f):
         node = f._node if hasattr(f, '_node') else f.node
+        self._cur_module = f.module
         # pre-scan: which transformations can apply at all
         kinds = set()
         names = set()
         maybe_call = False
+        has_get = False
         fnames = f.module.functions
         for n in ast.walk(node):
             kinds.add(type(n))
+            if isinstance(n, ast.Attribute) and n.attr == 'get' and isinstance(n.value, ast.Name):
+                has_get = True
             if isinstance(n, ast.Name):
                 names.add(n.id)
             elif isinstance(n, ast.Call):
@@ -1152,7 +1188,7 @@ class Normalizer:
             'append': ast.For in kinds and ast.List in kinds,
             'ifexp': ast.IfExp in kinds,
         }
-        if not maybe_call and not any(want.values()):
+        if not maybe_call and not any(want.values()) and not has_get:
             return node
         fn = clone(node)
         params = [x.arg for x in fn.args.posonlyargs + fn.args.args]
@@ -1183,7 +1219,9 @@ class Normalizer:
         if want['zip']:
             ch |= self.literal_zip(fn)
         if want['dictcomp']:
-            ch |= self.dictcomp_loops(fn)
+            if self.dictcomp_loops(fn):
+                ch = True
+                want['unroll'] = True        # the pass has just introduced a loop over a literal
         if want['unroll']:
             ch |= self.unroll(fn)
         if ch or want['unroll']:
@@ -1194,7 +1232,7 @@ class Normalizer:
             ch |= self.append_loops(fn)
         if want['ifexp']:
             ch |= self.ifexp_statements(fn)
-        if ast.Dict in kinds or ch:
+        if ast.Dict in kinds or ch or has_get:
             ch |= self.table_lookups(fn)
         if closures:
             ch |= self.drop_dead_closures(fn, closures)
